@@ -3,7 +3,8 @@
 The part files were written by the contract authors (one per work package); this script only regroups them per property."""
 import json, glob, os, collections
 P = '/verif/props'
-parts = {os.path.basename(f)[:-5]: json.load(open(f)) for f in sorted(glob.glob(P + '/parts/*.json') + glob.glob(P + '/own/*.json'))}
+skip = set(open(P + '/inprogress.txt').read().split()) if os.path.exists(P + '/inprogress.txt') else set()  # part files of authors still at work
+parts = {os.path.basename(f)[:-5]: json.load(open(f)) for f in sorted(glob.glob(P + '/parts/*.json') + glob.glob(P + '/own/*.json')) if os.path.basename(f)[:-5] not in skip}
 props = collections.OrderedDict()
 def add(pid, src, groups, timeout=None):
     p = props.setdefault(pid, {"id": pid, "groups": [], "assumptions": [], "not_decided": [], "sources": []})
